@@ -21,6 +21,7 @@ SPECIAL = [
     '/-/-/-/\n',                                              # the escape token as a scalar document
     'a: 1\n---\n/-/-/-/\n---\nb: 2\n',
     'body: |\n  a\n  ---\n  b\n   --- \n',                    # indented / padded terminator-like lines
+    '', '\n', '\n\n', '  \n',                                 # blank streams: valid, and stored like any other document
     '# only a comment\n', 'null\n', '~\n', '---\n# a marker and a comment\n', '# c1\n\n# c2\n',   # valid documents without a content node
     'cert: ' + 'QUJD' * 17000 + '\nafter: 1\n',               # one line of 68 KB (a base64 blob): beyond bufio's default token limit
 ]
@@ -143,6 +144,11 @@ def make_world(g, tag):
             return suites_exp_one_error(line, raw, ww)
         w.add('yaml 1 %d s %s' % (t + 400, hx(d3)), ('final-newline-is-compared', exp3))
         w.add('end %d' % (t + 400))
+        # a third and a fourth execution of the test in the same process (go test -count=4) replay like the first
+        for extra in (800, 1200):
+            w.add('begin %d %s' % (t + extra, hx(b'TestY%d' % n)))
+            w.add('yaml 1 %d s %s' % (t + extra, hx(d)), ('yaml-replays-in-later-executions', exp))
+            w.add('end %d' % (t + extra))
     # the UPDATE path: the same calls with different documents while updating is enabled.  The new
     # document is stored exactly as given too (text that is a template for regexp.Expand, `%` verbs,
     # multi-document streams), every other entry keeps its text, and a read-only run replays it
